@@ -357,7 +357,12 @@ def facade_leaves_dt_alone(repo, run):
         if isinstance(st, ast.Call) and dotted(st.func) == "setattr" and st.args and isinstance(st.args[0], ast.Name) and st.args[0].id in sysnames and \
                 len(st.args) > 1 and isinstance(st.args[1], ast.Constant) and st.args[1].value == "dt":
             bad.append(st)
-    run.judged(rid, "stores to <system>.dt in the body of solve_ivp: %d" % len(bad), ok=not bad)
+    # a store made before the first integrate() call (and outside any loop) configures the run; it cannot overwrite anything a callback assigned
+    ints = [c for c in ast.walk(fn) if isinstance(c, ast.Call) and isinstance(c.func, ast.Attribute) and c.func.attr == "integrate" and
+            isinstance(c.func.value, ast.Name) and c.func.value.id in sysnames]
+    first_int = min((path_key(c, fn) for c in ints), default=None)
+    bad = [st for st in bad if first_int is None or not (path_key(st, fn) < first_int and not any(isinstance(a, (ast.For, ast.While)) for a in ancestors(st)))]
+    run.judged(rid, "stores to <system>.dt in the body of solve_ivp after (or in a loop with) an integrate() call: %d" % len(bad), ok=not bad)
     for st in bad:
         run.report("C20.9", DS, st, "solve_ivp assigns the system's dt itself (`%s`): a step size assigned by a user callback during the preceding integrate() call is overwritten before the "
                    "next call uses it" % src(st)[:70])
